@@ -29,7 +29,7 @@ import Driver.Util
 import RotoV.Model.Mir
 import RotoV.Model.MirVariant
 import RotoV.Model.Glue
-import RotoV.Generated.GlueLoops
+import RotoV.Generated.GlueLoopsDrv
 import RotoV.Model.MirLower
 
 namespace Driver.C03
